@@ -531,13 +531,14 @@ Qed.
 (* ------------------------------------------------------------------ *)
 
 (* [seg w hl cs ls]: the lines ls are concatenations of consecutive groups of chunks of cs, in order;
-   between groups only blank chunks are dropped; every group fits the width, ends with a word chunk
-   and (once a line exists) starts with one *)
+   between groups only blank chunks are dropped; every group fits the width or is one chunk alone
+   (break_long_words=False: a word longer than the width overflows), ends with a word chunk and (once a
+   line exists) starts with one *)
 Inductive seg (w : nat) : bool -> list str -> list str -> Prop :=
 | seg_nil : forall hl, seg w hl [] []
 | seg_drop : forall hl c r ls, is_space_chunk c = true -> seg w hl r ls -> seg w hl (c :: r) ls
 | seg_line : forall hl line r ls,
-    line <> [] -> List.length (concat line) <= w ->
+    line <> [] -> (List.length (concat line) <= w \/ exists c, line = [c]) ->
     (hl = true -> first_is_word line) -> last_is_word line ->
     seg w true r ls -> seg w hl (line ++ r) (concat line :: ls).
 
@@ -557,44 +558,78 @@ Proof. intros a b Hne H. destruct a; [congruence|exact H]. Qed.
 Lemma wrap_chunks_nil : forall fuel w hl, wrap_chunks fuel w [] hl = [].
 Proof. intros fuel w hl. destruct fuel; reflexivity. Qed.
 
-Lemma wrap_seg : forall w fuel cs hl,
-    List.length cs <= fuel -> wfc cs -> Forall (fun c => List.length c <= w) cs ->
-    seg w hl cs (wrap_chunks fuel w cs hl).
+Lemma take_fit_nil_first : forall w n c r rest, take_fit w n (c :: r) = ([], rest) -> w < n + List.length c.
 Proof.
-  intros w fuel. induction fuel as [|f IH]; intros cs hl Hlen Hw Hfit.
+  intros w n c r rest H. cbn [take_fit] in H. destruct (Nat.leb (n + List.length c) w) eqn:E.
+  - destruct (take_fit w (n + List.length c) r). discriminate.
+  - apply Nat.leb_gt in E. exact E.
+Qed.
+
+(* the long-word step of _wrap_chunks: when nothing fits on an empty line, the next chunk goes there alone *)
+Definition long_step (w : nat) (taken rest : list str) : list str * list str :=
+  match taken, rest with
+  | [], c :: r => if Nat.ltb w (List.length c) then ([c], r) else (taken, rest)
+  | _, _ => (taken, rest)
+  end.
+
+Lemma long_step_spec : forall w cs1 taken rest taken' rest',
+    take_fit w 0 cs1 = (taken, rest) -> long_step w taken rest = (taken', rest') ->
+    cs1 = taken' ++ rest'
+    /\ (List.length (concat taken') <= w \/ exists c, taken' = [c])
+    /\ (cs1 <> [] -> taken' <> []).
+Proof.
+  intros w cs1 taken rest taken' rest' Et Hl.
+  pose proof (take_fit_app _ _ _ _ _ Et) as Hcs1.
+  pose proof (take_fit_len _ _ _ _ _ Et (Nat.le_0_l w)) as Htl. cbn [plus] in Htl.
+  unfold long_step in Hl. destruct taken as [|x t].
+  - destruct rest as [|c r].
+    + inversion Hl; subst taken' rest'. split; [exact Hcs1|]. split; [now left|].
+      intros Hn. exfalso. apply Hn. exact Hcs1.
+    + cbn [app] in Hcs1. subst cs1. pose proof (take_fit_nil_first _ _ _ _ _ Et) as Hlt. cbn [plus] in Hlt.
+      apply Nat.ltb_lt in Hlt. rewrite Hlt in Hl. inversion Hl; subst.
+      split; [reflexivity|]. split; [right; now exists c|discriminate].
+  - inversion Hl; subst. split; [assumption || reflexivity|]. split; [now left|discriminate].
+Qed.
+
+Lemma wrap_seg : forall w fuel cs hl,
+    List.length cs <= fuel -> wfc cs -> seg w hl cs (wrap_chunks fuel w cs hl).
+Proof.
+  intros w fuel. induction fuel as [|f IH]; intros cs hl Hlen Hw.
   - destruct cs; [constructor|cbn in Hlen; lia].
   - destruct cs as [|c0 r0]; [constructor|].
     cbn [wrap_chunks].
     remember (is_space_chunk c0 && hl) as b eqn:Eb.
     remember (if b then r0 else c0 :: r0) as cs1 eqn:Ecs1.
     destruct (take_fit w 0 cs1) as [taken rest] eqn:Et.
-    pose proof (take_fit_app _ _ _ _ _ Et) as Hcs1.
-    pose proof (take_fit_len _ _ _ _ _ Et (Nat.le_0_l w)) as Htl. cbn [plus] in Htl.
+    change (match taken with
+            | [] => match rest with
+                    | [] => (taken, rest)
+                    | c :: r => if Nat.ltb w (List.length c) then ([c], r) else (taken, rest)
+                    end
+            | _ :: _ => (taken, rest)
+            end) with (long_step w taken rest).
+    destruct (long_step w taken rest) as [taken' rest'] eqn:El.
+    destruct (long_step_spec w cs1 taken rest taken' rest' Et El) as [Hcs1 [Htl Hne]].
     assert (Hw1 : wfc cs1).
     { rewrite Ecs1. destruct b; [now apply wfc_tail in Hw|assumption]. }
-    assert (Hfit1 : Forall (fun c => List.length c <= w) cs1).
-    { rewrite Ecs1. destruct b; [now inversion Hfit|assumption]. }
     assert (Hfirst : hl = true -> first_is_word cs1).
     { intros Ehl. rewrite Ecs1, Eb. rewrite Ehl, andb_true_r. destruct (is_space_chunk c0) eqn:E0.
       - destruct r0 as [|c1 r1]; [exact I|]. cbn [first_is_word].
         destruct Hw as [k [Hc0 [Hc1 _]]].
         rewrite (chunk_ok_kind _ _ Hc0) in E0. rewrite (chunk_ok_kind _ _ Hc1). now rewrite E0.
       - exact E0. }
-    assert (Hrest : List.length rest <= f).
-    { cbn [List.length] in Hlen. destruct b.
-      - rewrite Ecs1 in Hcs1. cbv iota in Hcs1. apply (f_equal (@List.length str)) in Hcs1. rewrite app_length in Hcs1. lia.
-      - rewrite Ecs1 in Et, Hcs1. cbv iota in Et, Hcs1. clear Ecs1 Hw1 Hfit1 Hfirst.
-        inversion Hfit as [|c0' r0' Hc0 Hr0]; subst.
-        destruct (take_fit_first w c0 r0 0) as [t' [r' Ef]]; [cbn; lia|].
-        pose proof (eq_trans (eq_sym Et) Ef) as E. inversion E; subst.
-        apply (f_equal (@List.length str)) in Hcs1. cbn [app List.length] in Hcs1.
-        rewrite app_length in Hcs1. lia. }
-    rewrite Hcs1 in Hw1, Hfit1.
+    assert (Hrest : List.length rest' <= f).
+    { cbn [List.length] in Hlen. pose proof (f_equal (@List.length str) Hcs1) as HL.
+      rewrite app_length in HL. destruct b.
+      - rewrite Ecs1 in HL. cbv iota in HL. lia.
+      - rewrite Ecs1 in HL, Hne. cbv iota in HL, Hne. cbn [List.length] in HL.
+        assert (Hn : taken' <> []) by (apply Hne; discriminate).
+        destruct taken'; [congruence|]. cbn [List.length] in HL. lia. }
+    rewrite Hcs1 in Hw1.
     destruct (wfc_app _ _ Hw1) as [Hwt Hwr].
-    destruct (Forall_app_inv _ _ _ Hfit1) as [_ Hfitr].
-    destruct (drop_last_space_spec taken Hwt) as [tail [Htk [Htail Hlast]]].
-    set (line := drop_last_space taken) in *.
-    assert (Hcs1' : cs1 = line ++ (tail ++ rest)).
+    destruct (drop_last_space_spec taken' Hwt) as [tail [Htk [Htail Hlast]]].
+    set (line := drop_last_space taken') in *.
+    assert (Hcs1' : cs1 = line ++ (tail ++ rest')).
     { rewrite Hcs1. rewrite Htk at 1. now rewrite <- app_assoc. }
     assert (Hgoal : forall res, seg w hl cs1 res -> seg w hl (c0 :: r0) res).
     { intros res Hres. rewrite Ecs1 in Hres. destruct b; [|assumption].
@@ -603,8 +638,13 @@ Proof.
     + apply Hgoal. rewrite Hcs1'. cbn [app]. apply seg_drop_all; [assumption|]. now apply IH.
     + apply Hgoal. rewrite Hcs1'. apply seg_line.
       * discriminate.
-      * rewrite Htk in Htl. rewrite concat_app, app_length in Htl. lia.
-      * intros Ehl. apply (first_is_word_prefix _ (tail ++ rest)); [discriminate|].
+      * destruct Htl as [Htl|[c Hc]].
+        -- left. rewrite Htk in Htl. rewrite concat_app, app_length in Htl. lia.
+        -- right. rewrite Hc in Htk. destruct lr as [|l1 lr'].
+           ++ now exists l0.
+           ++ apply (f_equal (@List.length str)) in Htk. cbn [app List.length] in Htk.
+              rewrite app_length in Htk. cbn [List.length] in Htk. lia.
+      * intros Ehl. apply (first_is_word_prefix _ (tail ++ rest')); [discriminate|].
         rewrite <- Hcs1'. now apply Hfirst.
       * exact Hlast.
       * apply seg_drop_all; [assumption|]. now apply IH.
@@ -620,9 +660,37 @@ Proof.
     rewrite IH by assumption. now rewrite wfc_words.
 Qed.
 
-Lemma seg_width : forall w hl cs ls, seg w hl cs ls -> Forall (fun l => List.length l <= w) ls.
+Lemma single_word_line : forall c r, wfc ([c] ++ r) -> last_is_word [c] -> chunk_ok false c.
 Proof.
-  intros w hl cs ls H. induction H; [constructor|assumption|now constructor].
+  intros c r Hw Hl. destruct Hw as [k [Hc _]]. unfold last_is_word in Hl. cbn [rev app] in Hl.
+  rewrite (chunk_ok_kind _ _ Hc) in Hl. now subst k.
+Qed.
+
+Lemma seg_width : forall w hl cs ls, seg w hl cs ls -> wfc cs ->
+    Forall (fun l => List.length l <= w \/ one_word l = true) ls.
+Proof.
+  intros w hl cs ls H. induction H as [hl|hl c r ls Hc Hs IH|hl line r ls Hne Hlen Hf Hl Hs IH]; intros Hw.
+  - constructor.
+  - apply IH. now apply wfc_tail in Hw.
+  - destruct (wfc_app _ _ Hw) as [Hwl Hwr]. constructor; [|now apply IH].
+    destruct Hlen as [Hlen|[c Hc]]; [now left|]. right. subst line.
+    pose proof (single_word_line c r Hw Hl) as Hck. cbn [concat]. rewrite app_nil_r.
+    exact (chunk_ok_word c Hck).
+Qed.
+
+(* when no word is longer than the width every line fits *)
+Lemma seg_width_strict : forall w hl cs ls, seg w hl cs ls -> wfc cs ->
+    Forall (fun c => List.length c <= w) (wordsC cs) -> Forall (fun l => List.length l <= w) ls.
+Proof.
+  intros w hl cs ls H. induction H as [hl|hl c r ls Hc Hs IH|hl line r ls Hne Hlen Hf Hl Hs IH]; intros Hw Hfit.
+  - constructor.
+  - apply IH; [now apply wfc_tail in Hw|]. cbn [wordsC filter] in Hfit. rewrite Hc in Hfit. exact Hfit.
+  - destruct (wfc_app _ _ Hw) as [Hwl Hwr]. rewrite wordsC_app in Hfit. apply Forall_app in Hfit.
+    destruct Hfit as [Hfl Hfr]. constructor; [|now apply IH].
+    destruct Hlen as [Hlen|[c Hc]]; [assumption|]. subst line.
+    pose proof (single_word_line c r Hw Hl) as Hck.
+    cbn [wordsC filter] in Hfl. rewrite (chunk_ok_kind _ _ Hck) in Hfl. cbn [negb] in Hfl.
+    inversion Hfl; subst. cbn [concat]. now rewrite app_nil_r.
 Qed.
 
 Lemma seg_no_nl : forall w hl cs ls, seg w hl cs ls -> wfc cs -> Forall (fun l => ~ In nl l) ls.
@@ -707,32 +775,23 @@ Qed.
 (* ------------------------------------------------------------------ *)
 
 Lemma fill_inv : forall w s r, fill w s = Ok r ->
-    0 < w /\ mem_c tabch s = false /\ risky_hyphen None s = false
-    /\ Forall (fun c => List.length c <= w) (chunks (replace_ws s))
+    0 < w /\ mem_c tabch s = false
     /\ r = join [nl] (wrap_chunks (S (List.length (chunks (replace_ws s)))) w (chunks (replace_ws s)) false).
 Proof.
   intros w s r H. unfold fill in H.
-  destruct (mem_c tabch s || risky_hyphen None s) eqn:E1; [discriminate|].
-  apply orb_false_iff in E1. destruct E1 as [Et Eh].
-  destruct (existsb (fun c => Nat.ltb w (List.length c)) (chunks (replace_ws s))) eqn:E2; [discriminate|].
+  destruct (mem_c tabch s) eqn:E1; [discriminate|].
   destruct (Nat.eqb w 0) eqn:E3; [discriminate|].
-  apply Nat.eqb_neq in E3. inversion H; subst. repeat split; try assumption; [lia|].
-  apply Forall_forall. intros c Hc.
-  destruct (Nat.ltb w (List.length c)) eqn:E4.
-  - assert (existsb (fun c => Nat.ltb w (List.length c)) (chunks (replace_ws s)) = true).
-    { apply existsb_exists. now exists c. }
-    congruence.
-  - apply Nat.ltb_ge in E4. exact E4.
+  apply Nat.eqb_neq in E3. inversion H; subst. split; [lia|]. split; reflexivity.
 Qed.
 
 Lemma fill_seg : forall w s r, fill w s = Ok r ->
     exists ls, r = join [nl] ls /\ seg w false (chunks (replace_ws s)) ls
                /\ wfc (chunks (replace_ws s)) /\ concat (chunks (replace_ws s)) = replace_ws s.
 Proof.
-  intros w s r H. destruct (fill_inv w s r H) as [Hw [_ [_ [Hfit Hr]]]].
+  intros w s r H. destruct (fill_inv w s r H) as [Hw [_ Hr]].
   destruct (chunks_spec (replace_ws s) (replace_ws_normal s)) as [Hwf Hcat].
   eexists. split; [exact Hr|]. split; [|split; assumption].
-  apply wrap_seg; [lia|assumption|assumption].
+  apply wrap_seg; [lia|assumption].
 Qed.
 
 Lemma split_nl_join_lines : forall ls, Forall (fun l => ~ In nl l) ls ->
@@ -751,14 +810,28 @@ Proof.
   rewrite Hcat. apply words_replace_ws.
 Qed.
 
-(* (a) every line fits *)
-Lemma fill_width : forall w s r, fill w s = Ok r -> lines_le w r.
+(* (a) every line fits, or is a single word longer than the width *)
+Lemma fill_width : forall w s r, fill w s = Ok r -> lines_le_or_word w r.
 Proof.
   intros w s r H. destruct (fill_seg w s r H) as [ls [Hr [Hseg [Hwf Hcat]]]].
-  subst r. unfold lines_le. pose proof (seg_no_nl _ _ _ _ Hseg Hwf) as Hnn. rewrite split_nl_join_lines by exact Hnn.
+  subst r. unfold lines_le_or_word. pose proof (seg_no_nl _ _ _ _ Hseg Hwf) as Hnn.
+  rewrite split_nl_join_lines by exact Hnn.
+  destruct ls as [|x t].
+  - constructor; [left; cbn; lia|constructor].
+  - exact (seg_width w false _ _ Hseg Hwf).
+Qed.
+
+(* (a') when no word of the input is longer than the width, every line fits *)
+Lemma fill_width_strict : forall w s r, fill w s = Ok r ->
+    Forall (fun u => List.length u <= w) (words s) -> lines_le w r.
+Proof.
+  intros w s r H Hfit. destruct (fill_seg w s r H) as [ls [Hr [Hseg [Hwf Hcat]]]].
+  subst r. unfold lines_le. pose proof (seg_no_nl _ _ _ _ Hseg Hwf) as Hnn.
+  rewrite split_nl_join_lines by exact Hnn.
   destruct ls as [|x t].
   - constructor; [cbn; lia|constructor].
-  - now apply (seg_width w false _ _ Hseg).
+  - apply (seg_width_strict w false _ _ Hseg Hwf).
+    rewrite <- wfc_words by assumption. rewrite Hcat, words_replace_ws. exact Hfit.
 Qed.
 
 (* (c) no line ends with a blank; no line but the first starts with one *)
@@ -850,7 +923,7 @@ Qed.
 
 Lemma one_line_clean_inv : forall s, one_line_clean s = true ->
     forallb (fun c => negb (tw_space c) || ascii_eqb c sp) s = true
-    /\ ends_with_space s = false /\ mem_c tabch s = false /\ risky_hyphen None s = false.
+    /\ ends_with_space s = false /\ mem_c tabch s = false.
 Proof.
   intros s H. unfold one_line_clean in H. repeat (apply andb_true_iff in H; destruct H as [H ?]).
   repeat split; try assumption; now apply negb_true_iff.
@@ -858,20 +931,17 @@ Qed.
 
 Lemma fill_short_id : forall w s, 0 < w -> one_line_clean s = true -> List.length s <= w -> fill w s = Ok s.
 Proof.
-  intros w s Hw Hc Hlen. destruct (one_line_clean_inv s Hc) as [Hch [Hend [Htab Hhy]]].
-  unfold fill. rewrite Htab, Hhy. cbn [orb]. rewrite (replace_ws_id s Hch).
+  intros w s Hw Hc Hlen. destruct (one_line_clean_inv s Hc) as [Hch [Hend Htab]].
+  unfold fill. rewrite Htab. assert (E0 : Nat.eqb w 0 = false) by (apply Nat.eqb_neq; lia). rewrite E0.
+  rewrite (replace_ws_id s Hch).
   assert (Hn : normal s).
   { rewrite <- (replace_ws_id s Hch). apply replace_ws_normal. }
   destruct (chunks_spec s Hn) as [Hwf Hcat].
-  assert (Hfit : existsb (fun c => Nat.ltb w (List.length c)) (chunks s) = false).
-  { destruct (existsb (fun c => Nat.ltb w (List.length c)) (chunks s)) eqn:E; [|reflexivity].
-    apply existsb_exists in E. destruct E as [c [Hin Hlt]]. apply Nat.ltb_lt in Hlt.
-    pose proof (chunk_le_concat _ _ Hin) as Hle. rewrite Hcat in Hle. lia. }
-  rewrite Hfit. assert (E0 : Nat.eqb w 0 = false) by (apply Nat.eqb_neq; lia). rewrite E0.
   f_equal. destruct (chunks s) as [|c0 r0] eqn:Ecs.
   - cbn [concat] in Hcat. subst s. reflexivity.
   - cbn [wrap_chunks]. rewrite andb_false_r.
     rewrite (take_fit_all w (c0 :: r0) 0) by (rewrite Hcat; cbn; lia).
+    cbv iota beta.
     assert (Hd : drop_last_space (c0 :: r0) = c0 :: r0).
     { destruct (@rev_case str (c0 :: r0)) as [E|[l' [c E]]]; [discriminate|].
       rewrite E. rewrite drop_last_space_snoc. destruct (is_space_chunk c) eqn:Ek; [|reflexivity].
@@ -899,26 +969,16 @@ Qed.
 
 Lemma fill_guard_ok : forall w s, fill_guard w s = true -> exists r, fill w s = Ok r.
 Proof.
-  intros w s H. unfold fill_guard in H.
-  apply andb_true_iff in H. destruct H as [H Hfit].
-  apply andb_true_iff in H. destruct H as [H Hhy].
-  apply andb_true_iff in H. destruct H as [Hw Htab].
-  apply Nat.ltb_lt in Hw. apply negb_true_iff in Htab. apply negb_true_iff in Hhy.
-  unfold fill. rewrite Htab, Hhy. cbn [orb].
-  assert (E : existsb (fun c => Nat.ltb w (List.length c)) (chunks (replace_ws s)) = false).
-  { destruct (existsb (fun c => Nat.ltb w (List.length c)) (chunks (replace_ws s))) eqn:E; [|reflexivity].
-    apply existsb_exists in E. destruct E as [c [Hin Hlt]]. rewrite forallb_forall in Hfit.
-    specialize (Hfit c Hin). apply Nat.leb_le in Hfit. apply Nat.ltb_lt in Hlt. lia. }
-  rewrite E. assert (E0 : Nat.eqb w 0 = false) by (apply Nat.eqb_neq; lia). rewrite E0.
+  intros w s H. unfold fill_guard in H. apply andb_true_iff in H. destruct H as [Hw Htab].
+  apply Nat.ltb_lt in Hw. apply negb_true_iff in Htab.
+  unfold fill. rewrite Htab. assert (E0 : Nat.eqb w 0 = false) by (apply Nat.eqb_neq; lia). rewrite E0.
   eexists. reflexivity.
 Qed.
 
 Lemma fill_ok_guard : forall w s r, fill w s = Ok r -> fill_guard w s = true.
 Proof.
-  intros w s r H. destruct (fill_inv w s r H) as [Hw [Htab [Hhy [Hfit _]]]].
-  unfold fill_guard. rewrite Htab, Hhy. cbn [negb andb].
-  assert (E : Nat.ltb 0 w = true) by now apply Nat.ltb_lt. rewrite E. cbn [andb].
-  rewrite forallb_forall. intros c Hc. rewrite Forall_forall in Hfit. apply Nat.leb_le. now apply Hfit.
+  intros w s r H. destruct (fill_inv w s r H) as [Hw [Htab _]].
+  unfold fill_guard. rewrite Htab. cbn [negb]. rewrite andb_true_r. now apply Nat.ltb_lt.
 Qed.
 
 Lemma C18_fill_partial_lemma : forall w s, fill_guard w s = true ->
@@ -929,158 +989,45 @@ Proof.
 Qed.
 
 (* ------------------------------------------------------------------ *)
-(* a class-free corollary: single-spaced hyphen-free words              *)
+(* a class-free corollary: any words, single-spaced                      *)
 (* ------------------------------------------------------------------ *)
 
-Lemma takewhile_app_stop : forall (p : ascii -> bool) c rest,
-    forallb p c = true -> (rest = [] \/ exists x t, rest = x :: t /\ p x = false) ->
-    takewhile p (c ++ rest) = c.
+Lemma plain_word_inv : forall u, plain_word u = true -> u <> [] /\ nosp u.
 Proof.
-  intros p c rest Hc Hr. induction c as [|y c' IH].
-  - cbn [app]. destruct Hr as [Hr|[x [t [Hr Hx]]]]; subst; [reflexivity|]. cbn [takewhile]. now rewrite Hx.
-  - cbn [forallb] in Hc. apply andb_true_iff in Hc. destruct Hc as [Hy Hc'].
-    cbn [app takewhile]. rewrite Hy. f_equal. now apply IH.
+  intros u H. unfold plain_word in H. apply andb_true_iff in H. destruct H as [Hne Hch].
+  split; [destruct u; [discriminate|discriminate]|exact Hch].
 Qed.
 
-Definition kindp (k : bool) (x : ascii) : bool := Bool.eqb (spc x) k.
-
-Lemma chunk_ok_kindp : forall k c, chunk_ok k c -> forallb (kindp k) c = true.
+Lemma words_join_plain : forall ws, forallb plain_word ws = true -> words (join [sp] ws) = ws.
 Proof.
-  intros k c [_ H]. rewrite forallb_forall in *. intros x Hx. specialize (H x Hx).
-  apply andb_true_iff in H. now destruct H.
-Qed.
-
-Lemma good_head_takewhile : forall k c r, good k (c :: r) -> takewhile (kindp k) (concat (c :: r)) = c.
-Proof.
-  intros k c r [Hc Hr]. cbn [concat]. apply takewhile_app_stop; [now apply chunk_ok_kindp|].
-  destruct r as [|c2 r2]; [now left|]. right. cbn [good] in Hr. destruct Hr as [Hc2 _].
-  destruct c2 as [|x t]; [now destruct Hc2|]. exists x, (t ++ concat r2). split; [reflexivity|].
-  pose proof (chunk_ok_kindp _ _ Hc2) as H. cbn [forallb] in H. apply andb_true_iff in H. destruct H as [H _].
-  unfold kindp in *. apply eqb_prop in H. rewrite H. now destruct k.
-Qed.
-
-Lemma good_unique : forall cs cs' k k', good k cs -> good k' cs' -> concat cs = concat cs' -> cs = cs'.
-Proof.
-  intros cs. induction cs as [|c r IH]; intros cs' k k' Hg Hg' Hcat.
-  - destruct cs' as [|c' r']; [reflexivity|]. exfalso. destruct Hg' as [[Hne _] _].
-    cbn [concat] in Hcat. symmetry in Hcat. apply app_eq_nil in Hcat. now destruct Hcat.
-  - destruct cs' as [|c' r'].
-    + exfalso. destruct Hg as [[Hne _] _]. cbn [concat] in Hcat. apply app_eq_nil in Hcat. now destruct Hcat.
-    + assert (Ek : k = k').
-      { destruct Hg as [Hc _]. destruct Hg' as [Hc' _].
-        pose proof (chunk_ok_kind _ _ Hc) as K1. pose proof (chunk_ok_kind _ _ Hc') as K2.
-        destruct c as [|x t]; [now destruct Hc|]. destruct c' as [|x' t']; [now destruct Hc'|].
-        cbn [concat app] in Hcat. inversion Hcat; subst x'. cbn [is_space_chunk] in K1, K2. congruence. }
-      subst k'.
-      pose proof (good_head_takewhile _ _ _ Hg) as T1. pose proof (good_head_takewhile _ _ _ Hg') as T2.
-      rewrite Hcat in T1. rewrite T1 in T2. subst c'.
-      f_equal. cbn [concat] in Hcat. apply app_inv_head in Hcat.
-      destruct Hg as [_ Hr]. destruct Hg' as [_ Hr']. now apply (IH r' (negb k) (negb k)).
-Qed.
-
-Fixpoint intersperse_sp (ws : list str) : list str :=
-  match ws with
-  | [] => []
-  | [u] => [u]
-  | u :: r => u :: [sp] :: intersperse_sp r
-  end.
-
-Lemma intersperse_concat : forall ws, concat (intersperse_sp ws) = join [sp] ws.
-Proof.
-  intros ws. induction ws as [|u r IH]; [reflexivity|].
-  destruct r as [|v r2]; [cbn; apply app_nil_r|].
-  change (intersperse_sp (u :: v :: r2)) with (u :: [sp] :: intersperse_sp (v :: r2)).
-  cbn [concat]. rewrite IH. reflexivity.
-Qed.
-
-Lemma plain_word_inv : forall w u, plain_word w u = true ->
-    u <> [] /\ chunk_ok false u /\ ~ In (ch 45) u /\ List.length u <= w.
-Proof.
-  intros w u H. unfold plain_word in H. apply andb_true_iff in H. destruct H as [H Hl].
-  apply andb_true_iff in H. destruct H as [Hne Hch]. apply Nat.leb_le in Hl.
-  assert (Hn : u <> []) by (destruct u; [discriminate|discriminate]).
-  split; [assumption|]. split; [|split; [|assumption]].
-  - split; [assumption|]. rewrite forallb_forall in *. intros x Hx. specialize (Hch x Hx).
-    apply andb_true_iff in Hch. destruct Hch as [Ht _]. apply negb_true_iff in Ht. rewrite Ht.
-    unfold spc. destruct (ascii_eqb x sp) eqn:E; [|reflexivity].
-    apply ascii_eqb_eq in E. subst x. discriminate.
-  - intros Hin. rewrite forallb_forall in Hch. specialize (Hch _ Hin).
-    apply andb_true_iff in Hch. destruct Hch as [_ Hh]. now rewrite ascii_eqb_refl in Hh.
-Qed.
-
-Lemma intersperse_good : forall w ws, forallb (plain_word w) ws = true -> good false (intersperse_sp ws).
-Proof.
-  intros w ws. induction ws as [|u r IH]; intros H; [exact I|].
+  intros ws H. rewrite words_join_sep by reflexivity. induction ws as [|u r IH]; [reflexivity|].
   cbn [forallb] in H. apply andb_true_iff in H. destruct H as [Hu Hr].
-  destruct (plain_word_inv w u Hu) as [_ [Hc _]].
-  destruct r as [|v r2]; [cbn; tauto|].
-  change (intersperse_sp (u :: v :: r2)) with (u :: [sp] :: intersperse_sp (v :: r2)).
-  cbn [good negb]. split; [assumption|]. split; [split; [discriminate|reflexivity]|]. now apply IH.
+  destruct (plain_word_inv u Hu) as [Hne Hc].
+  cbn [map concat]. rewrite IH by assumption. rewrite words_word; [reflexivity|assumption|assumption].
 Qed.
 
-Lemma risky_no_hyphen : forall s prev, ~ In (ch 45) s -> risky_hyphen prev s = false.
-Proof.
-  intros s. induction s as [|c r IH]; intros prev H; [reflexivity|].
-  cbn [risky_hyphen]. rewrite IH by (intros Hin; apply H; now right).
-  destruct (ascii_eqb c (ch 45)) eqn:E; [|reflexivity].
-  apply ascii_eqb_eq in E. subst c. exfalso. apply H. now left.
-Qed.
-
-Lemma join_sp_chars : forall w ws x, forallb (plain_word w) ws = true -> In x (join [sp] ws) ->
-    x = sp \/ (tw_space x = false /\ x <> ch 45).
-Proof.
-  intros w ws x H Hx. apply join_chars in Hx. destruct Hx as [[Hx|[]]|[u [Hu Hxu]]]; [left; now symmetry|].
-  right. rewrite forallb_forall in H. specialize (H u Hu). unfold plain_word in H.
-  apply andb_true_iff in H. destruct H as [H _]. apply andb_true_iff in H. destruct H as [_ Hch].
-  rewrite forallb_forall in Hch. specialize (Hch x Hxu). apply andb_true_iff in Hch. destruct Hch as [Ht Hh].
-  apply negb_true_iff in Ht. apply negb_true_iff in Hh. split; [assumption|].
-  intros E. subst x. now rewrite ascii_eqb_refl in Hh.
-Qed.
-
-Lemma fill_guard_plain_words : forall w ws, 0 < w -> forallb (plain_word w) ws = true ->
+Lemma fill_guard_plain_words : forall w ws, 0 < w -> forallb plain_word ws = true ->
                                             fill_guard w (join [sp] ws) = true.
 Proof.
-  intros w ws Hw H. set (s := join [sp] ws).
-  assert (Hchars : forall x, In x s -> x = sp \/ (tw_space x = false /\ x <> ch 45)).
-  { intros x Hx. now apply (join_sp_chars w ws). }
-  assert (Hrw : replace_ws s = s).
-  { apply replace_ws_id. rewrite forallb_forall. intros x Hx. destruct (Hchars x Hx) as [E|[Ht _]].
-    - subst x. reflexivity.
-    - now rewrite Ht. }
-  assert (Htab : mem_c tabch s = false).
-  { destruct (mem_c tabch s) eqn:E; [|reflexivity]. apply mem_c_In in E.
-    destruct (Hchars _ E) as [E2|[Ht _]]; discriminate. }
-  assert (Hhy : risky_hyphen None s = false).
-  { apply risky_no_hyphen. intros Hin. destruct (Hchars _ Hin) as [E|[_ Hne]]; [discriminate|congruence]. }
-  unfold fill_guard. fold s. rewrite Htab, Hhy, Hrw. cbn [negb andb].
-  assert (E : Nat.ltb 0 w = true) by now apply Nat.ltb_lt. rewrite E. cbn [andb].
-  assert (Hn : normal s) by (rewrite <- Hrw; apply replace_ws_normal).
-  destruct (chunks_spec s Hn) as [[k Hg] Hcat].
-  assert (Ecs : chunks s = intersperse_sp ws).
-  { apply (good_unique _ _ k false Hg (intersperse_good w ws H)). rewrite Hcat. unfold s.
-    symmetry. apply intersperse_concat. }
-  rewrite Ecs. clear - Hw H. induction ws as [|u r IH]; [reflexivity|].
-  cbn [forallb] in H. apply andb_true_iff in H. destruct H as [Hu Hr].
-  destruct (plain_word_inv w u Hu) as [_ [_ [_ Hl]]]. apply Nat.leb_le in Hl.
-  destruct r as [|v r2]; [cbn [intersperse_sp forallb]; now rewrite Hl|].
-  change (intersperse_sp (u :: v :: r2)) with (u :: [sp] :: intersperse_sp (v :: r2)).
-  cbn [forallb]. rewrite Hl. rewrite IH by assumption.
-  assert (E1 : Nat.leb (List.length [sp]) w = true) by (apply Nat.leb_le; cbn; lia). now rewrite E1.
+  intros w ws Hw H. unfold fill_guard. assert (E : Nat.ltb 0 w = true) by now apply Nat.ltb_lt. rewrite E.
+  cbn [andb]. apply negb_true_iff. destruct (mem_c tabch (join [sp] ws)) eqn:Et; [|reflexivity].
+  apply mem_c_In in Et. apply join_chars in Et. destruct Et as [[Et|[]]|[u [Hu Hx]]]; [discriminate|].
+  rewrite forallb_forall in H. destruct (plain_word_inv u (H u Hu)) as [_ Hn].
+  unfold nosp in Hn. rewrite forallb_forall in Hn. specialize (Hn _ Hx). discriminate.
 Qed.
 
-Lemma words_join_plain : forall w ws, forallb (plain_word w) ws = true -> words (join [sp] ws) = ws.
-Proof.
-  intros w ws H. rewrite words_join_sep by reflexivity. induction ws as [|u r IH]; [reflexivity|].
-  cbn [forallb] in H. apply andb_true_iff in H. destruct H as [Hu Hr].
-  destruct (plain_word_inv w u Hu) as [Hne [Hc _]].
-  cbn [map concat]. rewrite IH by assumption. rewrite words_word; [reflexivity|assumption|now apply chunk_ok_word].
-Qed.
-
-Lemma C18_fill_plain_words_lemma : forall w ws, 0 < w -> forallb (plain_word w) ws = true ->
-    exists r, fill w (join [sp] ws) = Ok r /\ lines_le w r /\ words r = ws /\ clean_edges r.
+(* any words (hyphens, punctuation, any length), separated by single blanks: fill answers, the output has
+   exactly these words, every line fits or is one of the words; and every line fits when every word does *)
+Lemma C18_fill_plain_words_lemma : forall w ws, 0 < w -> forallb plain_word ws = true ->
+    exists r, fill w (join [sp] ws) = Ok r /\ lines_le_or_word w r /\ words r = ws /\ clean_edges r
+              /\ (Forall (fun u => List.length u <= w) ws -> lines_le w r).
 Proof.
   intros w ws Hw H. destruct (fill_guard_ok w _ (fill_guard_plain_words w ws Hw H)) as [r Hr].
   exists r. split; [assumption|]. split; [exact (fill_width w _ r Hr)|]. split.
-  - rewrite (fill_words w _ r Hr). now apply (words_join_plain w).
-  - exact (fill_edges w _ r Hr).
+  - rewrite (fill_words w _ r Hr). now apply words_join_plain.
+  - split; [exact (fill_edges w _ r Hr)|]. intros Hfit. apply (fill_width_strict w _ r Hr).
+    now rewrite words_join_plain.
 Qed.
+
+Lemma fill_guard_exact : forall w s, fill_guard w s = true <-> exists r, fill w s = Ok r.
+Proof. intros w s. split; [apply fill_guard_ok|intros [r Hr]; exact (fill_ok_guard w s r Hr)]. Qed.
